@@ -117,7 +117,7 @@ def search(res, tier, boost=False):
                 continue
             sc = ops.scale(te, tr)
             for pw in (False, True):
-                if pw and (cname == 'Circle' or te.gamma_space is not tr.gamma_space):
+                if pw and cname == 'Circle':
                     continue
                 SL = ops.SL[pw]
                 parent = SL.bilform(tr, te)
